@@ -288,10 +288,20 @@ func (c *Ctx) sourceBoc() {
 	// the closures capture the variable, not the value: the slot must hold the parameter for good
 	for _, in := range f.Blocks[0].Instrs {
 		al, ok := in.(*ssa.Alloc)
-		if !ok || !al.Heap || al.Comment != "c" {
+		if !ok || !al.Heap {
 			continue
 		}
 		sts := storesTo(al)
+		// the slot of the captured cell parameter: the one the parameter is stored into
+		isSlot := false
+		for _, st := range sts {
+			if st.Val == ssa.Value(f.Params[1]) {
+				isSlot = true
+			}
+		}
+		if !isSlot {
+			continue
+		}
 		okOne := len(sts) == 1 && sts[0].Val == ssa.Value(f.Params[1])
 		pos := al.Pos()
 		if len(sts) > 1 {
